@@ -232,36 +232,6 @@ Proof.
   - cbn [fst]. apply tab_ok_store; [exact H1|]. eapply node_ok_same; [|apply (H1 a)]. repeat split.
 Qed.
 
-(* the timer: bidib_node_state_expire_responses *)
-Lemma reap_q_ok q : forall used now, used = sumsz q -> used <= response_limit ->
-  snd (reap_q q used now) = sumsz (fst (reap_q q used now)) /\ snd (reap_q q used now) <= response_limit.
-Proof.
-  induction q as [|[ty c] rest IH]; intros used now Hu Hl; cbn [reap_q]; [cbn; auto|].
-  destruct (expiry_secs <=? now - c); [|cbn [fst snd]; auto].
-  cbn [sumsz fst] in Hu. apply IH; lia.
-Qed.
-
-Lemma reap_ok v now : node_ok v -> node_ok (reap v now).
-Proof.
-  intros [A B]. unfold reap. pose proof (reap_q_ok (n_resp v) (n_used v) now A B) as H.
-  destruct (reap_q (n_resp v) (n_used v) now) as [q u]. exact H.
-Qed.
-
-Lemma reap_ctl v now : same_ctl v (reap v now) /\ n_held (reap v now) = n_held v /\ n_waiters (reap v now) = n_waiters v.
-Proof. unfold reap. destruct (reap_q (n_resp v) (n_used v) now) as [q u]. repeat split. Qed.
-
-Lemma expire_loop_ok ks : forall t now acc, tab_ok t -> tab_ok (fst (expire_loop ks t now acc)).
-Proof.
-  induction ks as [|a r IH]; intros t now acc Ht; cbn [expire_loop]; [exact Ht|].
-  assert (H1 : tab_ok (store t a (reap (get t a) now))) by (apply tab_ok_store; [exact Ht|apply reap_ok, Ht]).
-  destruct (head_fits (reap (get t a) now)); [|apply IH; exact H1].
-  pose proof (try_queued_ok _ a now H1) as H2. destruct (try_queued (store t a (reap (get t a) now)) a now) as [t2 o].
-  apply IH. exact H2.
-Qed.
-
-Lemma on_expire_ok t now : tab_ok t -> tab_ok (fst (on_expire t now)).
-Proof. apply expire_loop_ok. Qed.
-
 Lemma alloc_sseq_ok t a : tab_ok t -> tab_ok (fst (alloc_sseq t a)).
 Proof.
   intros Ht. unfold alloc_sseq. cbn [fst]. pose proof (tab_ok_ensure t a Ht) as H1.
@@ -271,7 +241,7 @@ Qed.
 Lemma tab_step_ok t so now e : tab_ok t ->
   let '(t1, _, _, _, _) := tab_step t so now e in tab_ok t1.
 Proof.
-  intros Ht. destruct e as [a ty data|a rty last|n| |c|b| |]; cbn [tab_step]; try exact Ht.
+  intros Ht. destruct e as [a ty data|a rty last|n| |c|b|]; cbn [tab_step]; try exact Ht.
   - unfold submit_tab.
     assert (H1 : tab_ok (fst (if so then alloc_sseq t (canon a) else (t, 0)))).
     { destruct so; [apply alloc_sseq_ok; exact Ht|exact Ht]. }
@@ -285,7 +255,6 @@ Proof.
     + pose proof (on_stall_ok t1 a last now H1) as H2. destruct (on_stall t1 a last now) as [t2 g2]. exact H2.
     + exact H1.
   - apply tab_ok_nil.
-  - pose proof (on_expire_ok t now Ht) as H1. destruct (on_expire t now) as [t1 gs]. exact H1.
 Qed.
 
 Lemma tab_run_ok es : forall t so now, tab_ok t ->
@@ -515,51 +484,6 @@ Proof.
       * apply Hub; assumption.
 Qed.
 
-(* the timer releases like the lifting of a stall does: per node, in order, only to unblocked nodes *)
-Lemma expire_loop_spec ks : forall t now acc,
-  let '(t', gs) := expire_loop ks t now acc in
-  ctl_same t t' /\
-  (exists more, gs = acc ++ more /\
-     (forall b, grps_of b more ++ heldm t' b = heldm t b) /\
-     (forall g, In g more -> snd g <> [] -> unblocked t' (fst g))).
-Proof.
-  induction ks as [|a r IH]; intros t now acc; cbn [expire_loop].
-  - split; [apply ctl_same_refl|]. exists []. rewrite app_nil_r. split; [reflexivity|]. split; [reflexivity|intros g []].
-  - set (t1 := store t a (reap (get t a) now)).
-    destruct (reap_ctl (get t a) now) as (Rc & Rh & _).
-    assert (Hc0 : ctl_same t t1) by (apply ctl_same_store; exact Rc).
-    assert (Hh0 : forall b, heldm t1 b = heldm t b).
-    { intros b. unfold heldm, t1. destruct (addr_eqb_spec a b) as [->|Hn].
-      - rewrite get_store_same, Rh. reflexivity.
-      - rewrite get_store_other by exact Hn. reflexivity. }
-    destruct (head_fits (reap (get t a) now)).
-    + pose proof (try_queued_spec t1 a now) as Hq. destruct (try_queued t1 a now) as [t2 o].
-      destruct Hq as (Hc1 & Hh1 & Hub1).
-      specialize (IH t2 now (acc ++ o)). destruct (expire_loop r t2 now (acc ++ o)) as [t' gs].
-      destruct IH as (Hc & more & Hgs & Hh & Hub).
-      split; [eapply ctl_same_trans; [exact Hc0|]; eapply ctl_same_trans; [exact Hc1|exact Hc]|].
-      exists (o ++ more). split; [rewrite Hgs, app_assoc; reflexivity|]. split.
-      * intros b. unfold grps_of. rewrite flat_map_app, <- app_assoc. fold (grps_of b more). rewrite Hh, <- Hh0. apply Hh1.
-      * intros g Hin Hne. apply in_app_or in Hin as [Hin|Hin].
-        -- apply (unblocked_ctl t1 t'); [eapply ctl_same_trans; [exact Hc1|exact Hc]|]. apply Hub1; assumption.
-        -- apply Hub; assumption.
-    + specialize (IH t1 now acc). destruct (expire_loop r t1 now acc) as [t' gs].
-      destruct IH as (Hc & more & Hgs & Hh & Hub).
-      split; [eapply ctl_same_trans; [exact Hc0|exact Hc]|].
-      exists more. split; [exact Hgs|]. split; [intros b; rewrite Hh; apply Hh0|exact Hub].
-Qed.
-
-Lemma on_expire_spec t now :
-  let '(t', gs) := on_expire t now in
-  ctl_same t t' /\
-  (forall b, grps_of b gs ++ heldm t' b = heldm t b) /\
-  (forall g, In g gs -> snd g <> [] -> unblocked t' (fst g)).
-Proof.
-  unfold on_expire. pose proof (expire_loop_spec (map fst t) t now []) as H.
-  destruct (expire_loop (map fst t) t now []) as [t' gs]. destruct H as (Hc & more & Hgs & Hh & Hub).
-  cbn [app] in Hgs. subst gs. auto.
-Qed.
-
 (* ------------------------------------------------------------------ on_stall, alloc_sseq *)
 Definition stall_set (t : table) (a : addr) (v : bool) (t' : table) : Prop :=
   forall b, n_stall (get t' b) = (if addr_eqb a b then v else n_stall (get t b)) /\
@@ -658,7 +582,7 @@ Lemma tab_step_spec t so now e f :
   (is_reset e = false -> forall a, sent a gouts ++ heldm t' a = heldm t a ++ submitted a gouts) /\
   (forall g a, In g gouts -> emitted_to a g -> unblocked t' a).
 Proof.
-  intros Hf. destruct e as [a3 ty data|a rty last|n| |c|b| |]; cbn [tab_step stall_spec_step is_reset].
+  intros Hf. destruct e as [a3 ty data|a rty last|n| |c|b|]; cbn [tab_step stall_spec_step is_reset].
   - (* FSend *)
     unfold submit_tab.
     assert (H1 : exists t1 sq, (if so then alloc_sseq t (canon a3) else (t, 0)) = (t1, sq) /\
@@ -707,13 +631,6 @@ Proof.
   - split; [exact Hf|]. split; [intros _ a; cbn; rewrite app_nil_r; reflexivity|intros g a []].
   - split; [exact Hf|]. split; [intros _ a; cbn; rewrite app_nil_r; reflexivity|intros g a []].
   - split; [intros b; unfold get; reflexivity|]. split; [discriminate|intros g a []].
-  - (* FExpire *)
-    pose proof (on_expire_spec t now) as He. destruct (on_expire t now) as [t1 gs].
-    destruct He as (Hc & Hh & Hub). split; [|split].
-    + intros b. destruct (Hc b) as (B & _). rewrite B. apply Hf.
-    + intros _ b. rewrite sent_released, submitted_released, app_nil_r. apply Hh.
-    + intros g b Hin Hem. apply in_map_iff in Hin as ([b' ms] & <- & Hin). cbn in Hem. destruct Hem as [Hne <-].
-      apply (Hub (b', ms) Hin Hne).
 Qed.
 
 (* ------------------------------------------------------------------ traces *)
@@ -835,7 +752,7 @@ Proof.
     assert (Hstep : let '(t1, s1, n1, g1, _) := tab_step t true now e in
               s1 = true /\ forall a, consecutive_from (n_sseq (get t a)) (sub_seqs a g1) /\
                         n_sseq (get t1 a) = seq_iter (length (sub_seqs a g1)) (n_sseq (get t a))).
-    { destruct e as [a3 ty data|a rty last|n| |c|b| |]; cbn [tab_step]; try discriminate;
+    { destruct e as [a3 ty data|a rty last|n| |c|b|]; cbn [tab_step]; try discriminate;
         try (split; [reflexivity|]; intros a; cbn; auto).
       - unfold submit_tab. pose proof (alloc_sseq_spec t (canon a3)) as Ha.
         destruct (alloc_sseq t (canon a3)) as [t1 sq]. destruct Ha as [-> Ha].
@@ -851,11 +768,6 @@ Proof.
       - pose proof (uplink_tab_sseq t a rty last now) as Hq.
         destruct (uplink_tab t a rty last now) as [t1 gs]. cbn [fst] in Hq.
         split; [reflexivity|]. intros b. rewrite Hq.
-        assert (E : sub_seqs b (map GReleased gs) = []).
-        { unfold sub_seqs. clear. induction gs; cbn; auto. }
-        rewrite E. cbn. auto.
-      - pose proof (on_expire_spec t now) as Hx. destruct (on_expire t now) as [t1 gs]. destruct Hx as (Hc & _).
-        split; [reflexivity|]. intros b. destruct (Hc b) as (_ & Hq & _). rewrite Hq.
         assert (E : sub_seqs b (map GReleased gs) = []).
         { unfold sub_seqs. clear. induction gs; cbn; auto. }
         rewrite E. cbn. auto. }
